@@ -974,21 +974,17 @@ impl Inner {
             }
         }
 
-        // If we include not matched rules, we need to fixup the results of
-        // some global rules. For example, if a namespace contains two global
-        // rules A and B, with A matching and B not matching, then A must be
-        // set to "not matching" since its results are invalidated by B not
-        // matching.
-        if scan_data.params.include_not_matched_rules {
-            for (rule, evaluated_rule) in self.global_rules.iter().zip(scan_data.rules.iter_mut()) {
-                if eval_ctx.namespace_disabled[rule.namespace_index] {
-                    evaluated_rule.matched = false;
-                }
-            }
-        } else
+        // We need to fixup the results of some global rules. For example, if a
+        // namespace contains two global rules A and B, with A matching and B not
+        // matching, then A must be set to "not matching" since its results are
+        // invalidated by B not matching.
+        self.fixup_global_rules_results(&eval_ctx, scan_data);
+
         // If we only include matched rules and all namespaces are disabled,
         // there is no need to do any further work.
-        if eval_ctx.namespace_disabled.iter().all(|v| *v) {
+        if !scan_data.params.include_not_matched_rules
+            && eval_ctx.namespace_disabled.iter().all(|v| *v)
+        {
             scan_data.rules.clear();
             #[cfg(feature = "profiling")]
             if let Some(stats) = scan_data.statistics.as_mut() {
@@ -1050,6 +1046,7 @@ impl Inner {
         if has_unknown_globals {
             return Err(EvalError::Undecidable);
         }
+        self.fixup_global_rules_results(&eval_ctx, scan_data);
 
         // Then, if all global rules matched, the normal rules
         for rule in &self.rules {
@@ -1057,6 +1054,30 @@ impl Inner {
         }
 
         Ok(())
+    }
+
+    /// Invalidate the results of the global rules of disabled namespaces.
+    ///
+    /// Must be called once all global rules have been evaluated, when `scan_data.rules`
+    /// only contains results of global rules: the rules that matched in a namespace
+    /// that ends up disabled did not actually match.
+    fn fixup_global_rules_results(&self, eval_ctx: &EvalContext, scan_data: &mut ScanData) {
+        let is_disabled = |rule: &EvaluatedRule| {
+            self.namespaces
+                .iter()
+                .zip(&eval_ctx.namespace_disabled)
+                .any(|(name, disabled)| *disabled && **name == *rule.namespace)
+        };
+
+        if scan_data.params.include_not_matched_rules {
+            for rule in &mut scan_data.rules {
+                if is_disabled(rule) {
+                    rule.matched = false;
+                }
+            }
+        } else {
+            scan_data.rules.retain(|rule| !is_disabled(rule));
+        }
     }
 
     fn do_memory_scan<'scanner>(
